@@ -99,26 +99,39 @@ def run_driver(wd, n, variant):
     return run_cases(wd, [(n, variant)])[(n, variant)]
 
 
-def confirm_in_quad(spec, text, ad, wd, n, v, part):
-    """A mismatch seen in real(8) is only reported if it is still there when
-    the same TL and adjoint texts are compiled with every real widened to
-    real(16) (rules out rounding when values grow beyond 2**53).  Returns
-    True when the mismatch is confirmed."""
+def ensure_quad(spec, text, ad, wd, part):
+    """Builds (once per kernel) the same TL and adjoint texts with every
+    real widened to real(16), plus the driver.  Returns the directory or
+    None."""
     qd = wd + "_q"
-    if not os.path.exists(os.path.join(qd, "drv.x")):
-        shutil.rmtree(qd, ignore_errors=True)
+    if os.path.exists(os.path.join(qd, "drv.x")):
+        return qd
+    shutil.rmtree(qd, ignore_errors=True)
+    ok, err = fx.compile_f(
+        qd, [("tl_k.f90", cg.to_quad(text)),
+             ("adj_k.f90", cg.to_quad(ad))], compile_only=True)
+    if ok:
         ok, err = fx.compile_f(
-            qd, [("tl_k.f90", cg.to_quad(text)),
-                 ("adj_k.f90", cg.to_quad(ad))], compile_only=True)
-        if ok:
-            ok, err = fx.compile_f(
-                qd, [("drv.f90", cg.driver_text(spec, rk=16))], exe="drv.x",
-                flags=DRV_FLAGS, extra=["tl_k.o", "adj_k.o"])
-        if not ok:
-            part.count("real16_recheck_unavailable")
-            part.inconclusive("C19 real(16) re-check did not compile: "
-                              + str(err)[-300:])
-            return False
+            qd, [("drv.f90", cg.driver_text(spec, rk=16))], exe="drv.x",
+            flags=DRV_FLAGS, extra=["tl_k.o", "adj_k.o"])
+    if not ok:
+        part.count("real16_recheck_unavailable")
+        part.inconclusive("C19 real(16) re-check did not compile: "
+                          + str(err)[-300:])
+        return None
+    return qd
+
+
+def confirm_in_quad(spec, text, ad, wd, n, v, part):
+    """A mismatch seen in real(8) is only reported if it is still there
+    (same 1e-9 relative tolerance) when the same TL and adjoint texts are
+    compiled with every real widened to real(16): generated kernels can grow
+    values like 8**(n*n), and then real(8) sums cancel catastrophically,
+    whereas a wrong adjoint differs in the leading digits in any arithmetic.
+    Returns True when the mismatch is confirmed."""
+    qd = ensure_quad(spec, text, ad, wd, part)
+    if qd is None:
+        return False
     r = run_driver(qd, n, v)
     part.count("real16_rechecks")
     if r["stage"] == "done" and r["nbad"] == 0:
@@ -129,6 +142,29 @@ def confirm_in_quad(spec, text, ad, wd, n, v, part):
         part.count("real16_recheck_did_not_finish_not_judged")
         return False
     return True
+
+
+def harness_fails_in_quad(spec, text, ad, hsrc, seeder, wd, part):
+    """PSyAD's harness printed FAILED in real(8).  Re-run the same harness
+    text with every real widened to real(16); the failure is confirmed
+    unless the two inner products it prints then agree to six digits."""
+    qd = ensure_quad(spec, text, ad, wd, part)
+    if qd is None:
+        return False
+    ok, err = fx.compile_f(qd, [("c19_seed.f90", seeder),
+                                ("harness.f90", cg.to_quad(hsrc))],
+                           exe="harness.x", extra=["tl_k.o", "adj_k.o"])
+    if not ok:
+        part.count("real16_harness_unavailable_not_judged")
+        return False
+    rc, out, herr = fx.run_exe(qd, exe="harness.x", timeout=120)
+    part.count("real16_harness_runs")
+    if "PASSED" in out or ("FAILED" in out and harness_only_rounding(out)):
+        return False
+    if "FAILED" in out:
+        return True
+    part.count("real16_harness_did_not_finish_not_judged")
+    return False
 
 
 def harness_only_rounding(out):
@@ -304,10 +340,13 @@ def evaluate(spec, feats, part, wd):
             if per_n.get(HARNESS_N) is False:
                 part.count("harness_passed_although_matrices_differ")
         elif "FAILED" in out:
-            if per_n.get(HARNESS_N) is True and harness_only_rounding(out):
-                # the adjoint is the transpose at this size and the two
-                # inner products agree to 6 digits: ill-conditioned sums of
-                # the generated kernel (values grow like 4**n), not PSyAD
+            if per_n.get(HARNESS_N) is True and (
+                    harness_only_rounding(out) or not harness_fails_in_quad(
+                        spec, text, ad, hsrc, seeder, wd, part)):
+                # oracle A found the exact transpose at this size and the
+                # harness' two inner products agree to 6 digits (in real(8)
+                # or, failing that, in real(16)): ill-conditioned sums of
+                # the generated kernel (values grow like 8**n), not PSyAD
                 part.count("harness_failed_by_rounding_only_not_judged")
             else:
                 # (the harness draws its own passive data, so it can reach a
